@@ -375,6 +375,118 @@ var c17 = &vh.Prop[c17Case]{
 
 func typeUsesTag(t *vh.TSpec) bool { return hasOpt(t, "off") }
 
-func init() { registrars = append(registrars, c17.Register) }
+// refNodeCodec encodes a *RefNode-typed position as the node's ID only (a
+// reference), registered for (RefNode, "ref").
+type refNodeCodec struct{ k int64 }
+
+func (c refNodeCodec) Omit(ptr unsafe.Pointer) bool { return false }
+func (c refNodeCodec) New() unsafe.Pointer          { return unsafe.Pointer(new(vh.RefNode)) }
+func (c refNodeCodec) WireType() plenccore.WireType { return plenccore.WTVarInt }
+func (c refNodeCodec) Descriptor() plenccodec.Descriptor {
+	return plenccodec.Descriptor{Type: plenccodec.FieldTypeInt}
+}
+func (c refNodeCodec) Size(ptr unsafe.Pointer, tag []byte) int {
+	return len(tag) + plenccore.SizeVarInt(int64((*vh.RefNode)(ptr).ID)+c.k)
+}
+func (c refNodeCodec) Append(data []byte, ptr unsafe.Pointer, tag []byte) []byte {
+	data = append(data, tag...)
+	return plenccore.AppendVarInt(data, int64((*vh.RefNode)(ptr).ID)+c.k)
+}
+func (c refNodeCodec) Read(data []byte, ptr unsafe.Pointer, wt plenccore.WireType) (int, error) {
+	v, n := plenccore.ReadVarInt(data)
+	if n <= 0 {
+		return 0, fmt.Errorf("corrupt")
+	}
+	(*vh.RefNode)(ptr).ID = int(v - c.k)
+	return n, nil
+}
+
+type c17RefCase struct {
+	K     int64 `json:"k"`
+	IDs   []int `json:"ids"`   // chain of nodes, child first
+	First int   `json:"first"` // which type the instance meets first: 0 RefNode, 1 *RefNode, 2 []RefNode, 3 struct with a ref-tagged field
+}
+
+type c17Holder struct {
+	N vh.RefNode  `plenc:"1"`
+	P *vh.RefNode `plenc:"2,ref"`
+}
+
+// c17Ref: a codec registered under a tag for a recursive struct type is the one used
+// for the tagged self-reference, whatever the instance built first.
+var c17Ref = &vh.Prop[c17RefCase]{
+	ID: "C17", Name: "tagged-codec-for-recursive-type",
+	Gen: func(t *rapid.T) c17RefCase {
+		n := rapid.IntRange(1, 4).Draw(t, "chain")
+		ids := make([]int, n)
+		for i := range ids {
+			ids[i] = rapid.IntRange(-3, 300).Draw(t, "id")
+		}
+		return c17RefCase{K: int64(rapid.IntRange(0, 50).Draw(t, "k")), IDs: ids, First: rapid.IntRange(0, 3).Draw(t, "first")}
+	},
+	Run: func(c c17RefCase, x *vh.Ctx) *vh.Failure {
+		p := &plenc.Plenc{}
+		p.RegisterDefaultCodecs()
+		p.RegisterCodecWithTag(reflect.TypeOf(vh.RefNode{}), "ref", refNodeCodec{c.K})
+		var root *vh.RefNode
+		for i := len(c.IDs) - 1; i >= 0; i-- {
+			root = &vh.RefNode{ID: c.IDs[i], Parent: root, Name: fmt.Sprint("n", i)}
+		}
+		first := []reflect.Type{reflect.TypeOf(vh.RefNode{}), reflect.TypeOf(&vh.RefNode{}), reflect.TypeOf([]vh.RefNode{}), reflect.TypeOf(c17Holder{})}[c.First]
+		if _, err := p.CodecForType(first); err != nil {
+			return vh.Fail("C17/codec-error", "%v", err)
+		}
+		// expected: ID, then (if there is a parent) field 2 as a zig-zag varint of parent.ID+k, then the name
+		exp := func(n *vh.RefNode) []byte {
+			var b []byte
+			if n.ID != 0 {
+				b = append(b, 0x08)
+				b = binary.AppendUvarint(b, uint64(int64(n.ID)<<1)^uint64(int64(n.ID)>>63))
+			}
+			if n.Parent != nil {
+				v := int64(n.Parent.ID) + c.K
+				b = append(b, 0x10)
+				b = binary.AppendUvarint(b, uint64(v<<1)^uint64(v>>63))
+			}
+			b = append(b, 0x1a, byte(len(n.Name)))
+			return append(b, n.Name...)
+		}
+		got, err := p.Marshal(nil, root)
+		if err != nil {
+			return vh.Fail("C17/marshal-error", "%v", err)
+		}
+		if want := exp(root); !bytes.Equal(got, want) {
+			return vh.Fail("C17/wrong-codec-used", "RefNode with a (RefNode, \"ref\") registration (first built: %s): Marshal % x, expected % x", first, got, want)
+		}
+		h := c17Holder{N: *root, P: root}
+		got, err = p.Marshal(nil, &h)
+		if err != nil {
+			return vh.Fail("C17/marshal-error", "%v", err)
+		}
+		body := exp(root)
+		want := append([]byte{0x0a, byte(len(body))}, body...)
+		v := int64(root.ID) + c.K
+		want = append(want, 0x10)
+		want = binary.AppendUvarint(want, uint64(v<<1)^uint64(v>>63))
+		if len(body) < 128 && !bytes.Equal(got, want) {
+			return vh.Fail("C17/wrong-codec-used", "struct with a ref-tagged *RefNode field: Marshal % x, expected % x", got, want)
+		}
+		var out vh.RefNode
+		if err := p.Unmarshal(exp(root), &out); err != nil {
+			return vh.Fail("C17/unmarshal-error", "%v", err)
+		}
+		if out.ID != root.ID || (root.Parent != nil) != (out.Parent != nil) || (root.Parent != nil && out.Parent.ID != root.Parent.ID) {
+			return vh.Fail("C17/roundtrip-mismatch", "decoded %+v", out)
+		}
+		if len(c.IDs) > 1 {
+			x.NonTrivial()
+		}
+		return nil
+	},
+}
+
+func TestC17RecursiveTagged(t *testing.T) { c17Ref.Check(t, vh.N(3000, 20000)) }
+
+func init() { registrars = append(registrars, c17.Register, c17Ref.Register) }
 
 func TestC17(t *testing.T) { c17.Check(t, vh.N(15000, 40000)) }
